@@ -183,6 +183,14 @@ func (g *gen) genNew() {
 		names[i], names[j] = names[j], names[i]
 	}
 	malformed := r.P(1, 12) || (g.opt["newonly"] != "" && r.P(1, 3))
+	// key test frames: few columns over tiny alphabets, always with a bool column, enough rows for every combination
+	// to occur several times and for rows to differ in one column only (grouping / Distinct over all columns)
+	keytest := !malformed && r.P(1, 12)
+	if keytest {
+		ncols = 2 + r.Intn(2)
+		n = 8 + r.Intn(12)
+		g.nullP = r.PickInt([]int{0, 0, 1})
+	}
 	emptyFirst := malformed && r.P(1, 3)
 	data := map[string]types.DataSlice{}
 	toks := []string{"N", tx.Int(fid), ""}
@@ -211,6 +219,13 @@ func (g *gen) genNew() {
 		// value alphabet per column: narrow (many ties: group keys) or wide (mostly distinct: sorting by it permutes the rows freely)
 		g.wide = r.P(1, 3)
 		kind := r.Pick([]string{"I", "I", "F", "F", "B", "S", "S", "T", "EN", "EN", "CI", "CF", "CB", "CS"})
+		if keytest {
+			g.wide = false
+			kind = []string{"B", "I", "S", "EN"}[(c+r.Intn(2))%4]
+			if c == 0 {
+				kind = "B"
+			}
+		}
 		if g.opt["enumheavy"] != "" && r.P(1, 2) {
 			kind = r.Pick([]string{"EN", "EN", "ENBIG"})
 		}
